@@ -24,6 +24,7 @@ var (
 	vSumCount = regexp.MustCompile(`(?m)^. (\d+) snapshots? (passed|failed|added|updated|skipped)$`)
 	vSumList  = regexp.MustCompile(`(?m)^› (\d+) snapshot (files?|tests?) (obsolete|removed)$`)
 	vSumItem  = regexp.MustCompile(`(?m)^  ↳\s+•\s(.*)$`)
+	vAnsi     = regexp.MustCompile("\x1b\\[[0-9;]*m")
 )
 
 func vCaptureStdout(f func()) string {
@@ -67,11 +68,13 @@ func init() {
 		flag.Set("test.count", fmt.Sprint(count))
 		fmt.Fprintf(r.w, "op clean sort=%s count=%d\n", vb(o.Sort), count)
 		saved := colors.NOCOLOR
-		colors.NOCOLOR = true
+		colors.NOCOLOR = !o.Colour
 		before := r.sb.scan()
-		out := vCaptureStdout(func() { Clean(nil, CleanOpts{Sort: o.Sort}) })
+		rawOut := vCaptureStdout(func() { Clean(nil, CleanOpts{Sort: o.Sort}) })
 		after := r.sb.scan()
 		colors.NOCOLOR = saved
+		rawOut = strings.ReplaceAll(rawOut, r.sb.root, vRoot) // virtual paths, as everywhere in the transcript
+		out := vAnsi.ReplaceAllString(rawOut, "")
 		flag.Set("test.count", "1")
 
 		counts := map[string]string{"passed": "0", "failed": "0", "added": "0", "updated": "0", "skipped": "0"}
@@ -120,6 +123,11 @@ func init() {
 			r.sb.writes(before, after), printed, counts["passed"], counts["failed"], counts["added"],
 			counts["updated"], counts["skipped"], removed)
 		r.sb.pin()
+		// the exact bytes Clean printed: read back by the model's verified reader, compared with the model's
+		// own Clean result and re-rendered byte for byte (the order of the listed items is Go map order)
+		r.idx++
+		fmt.Fprintf(r.w, "op readsum raw=%s nocolor=%s\n", vhex([]byte(rawOut)), vb(!o.Colour))
+		fmt.Fprintf(r.w, "readsum %d ok=1 agree=1 render=1\n", r.idx)
 	}
 
 	vExtraOps["natural"] = func(r *vRunner, o vOp) {
